@@ -181,6 +181,32 @@ func genC16(g *Gen) {
 		g.un(ops[g.r.Intn(len(ops))], mk(false, c, e+g.r.Intn(2)*4))
 		g.un(ops[g.r.Intn(4)], mk(true, c, e))
 	})
+	// Exp2 / Exp10 split the argument into integer and fraction by reversing the fraction's digits: arguments whose fraction,
+	// read backwards, is a word-structured integer (h * 2^64 + {0, 1, 5, all ones}) * 10^k + r
+	two64 := new(big.Int).Lsh(big.NewInt(1), 64)
+	revKs := []int{0, 1, 2, 5, 8}
+	g.gridRun(len(wordLows)*len(revKs)*2*2, 0.06, func(i int) {
+		l, k, h, opi := i%len(wordLows), revKs[(i/len(wordLows))%len(revKs)], 1+2*((i/len(wordLows)/len(revKs))%2), i/len(wordLows)/len(revKs)/2
+		w := new(big.Int).Add(new(big.Int).Mul(big.NewInt(int64(h)), two64), wordLows[l])
+		c := new(big.Int).Mul(w, pow10(k))
+		if k > 0 {
+			c.Add(c, randDigits(g.r, k))
+		}
+		s := c.String()
+		rev := make([]byte, len(s))
+		for j := range s {
+			rev[len(s)-1-j] = s[j]
+		}
+		ip := []int64{1, 3, 7, 12, 100, 731}[g.r.Intn(6)]
+		if len(s) > 30 {
+			ip = []int64{1, 3, 7}[g.r.Intn(3)]
+		}
+		xc, _ := new(big.Int).SetString(big.NewInt(ip).String()+string(rev), 10)
+		if xc.Cmp(cMax) > 0 {
+			return
+		}
+		g.un([]string{"Exp2", "Exp10"}[opi], mk(g.r.Intn(3) == 0, xc, -len(s)))
+	})
 	for !g.w.full() {
 		op := ops[g.r.Intn(len(ops))]
 		switch op {
@@ -351,8 +377,75 @@ func (g *Gen) pow(x, y d128.Decimal, m int, wm bool) {
 	g.emit(e)
 }
 
+// negative bases raised to integers (odd and even) whose exact power lies just inside the range, in the band where the
+// overflow / underflow shows only in the last reduction, and far outside: the sign (-1)^n must survive on Inf and on zero
+func (g *Gen) powSignGrid(share float64) {
+	bases := []struct {
+		c int64
+		e int
+	}{{2, 0}, {3, 0}, {7, 0}, {12345, 0}, {15, -1}, {5, -1}, {3, -2}, {15, 3080}, {2, -3000}}
+	targets := []int{6140, 6146, 6150, 6200, 6225, 6230, 7000, 40000, -6170, -6178, -6200, -6250, -6300, -7000, -40000}
+	g.gridRun(len(bases)*len(targets), share, func(i int) {
+		b, tgt := bases[i%len(bases)], targets[i/len(bases)]
+		lg := math.Log10(float64(b.c)) + float64(b.e)
+		n := int64(math.Round(float64(tgt) / lg))
+		if n == 0 {
+			n = 1
+		}
+		x := mk(true, big.NewInt(b.c), b.e)
+		for _, k := range []int64{n, n + 1} {
+			y := g.cohort(mk(k < 0, big.NewInt(absInt64(k)), 0))
+			g.pow(x, y, g.r.Intn(6), true)
+		}
+	})
+}
+
+// integer exponents written with every number of redundant trailing zeros (n * 10^z * 10^-z, z = 0..33): whether the
+// exponent is an integer, and odd, must not depend on its encoding -- against the bases whose result sign depends on it
+func (g *Gen) powPaddedIntGrid(share float64) {
+	bases := []d128.Decimal{mk(true, new(big.Int), 0), mk(true, new(big.Int), 17), d128.Inf(-1), mk(true, big.NewInt(2), 0), mk(true, big.NewInt(15), -1), mk(false, big.NewInt(100), 0)}
+	ns := []int64{3, 4, 21}
+	g.gridRun(len(bases)*len(ns)*34, share, func(i int) {
+		x := bases[i%len(bases)]
+		n := ns[(i/len(bases))%len(ns)]
+		z := i / len(bases) / len(ns)
+		yc := new(big.Int).Mul(big.NewInt(n), pow10(z))
+		if yc.Cmp(cMax) > 0 {
+			return
+		}
+		m := g.r.Intn(6)
+		g.pow(x, mk(false, yc, -z), m, true)
+		g.pow(x, mk(true, yc, -z), m, true)
+	})
+}
+
+func absInt64(v int64) int64 {
+	if v < 0 {
+		return -v
+	}
+	return v
+}
+
 func genC18(g *Gen) {
 	g.setMode(0)
+	g.powSignGrid(0.06)
+	g.powPaddedIntGrid(0.1)
+	// exponents that only LOOK like the shortcut values when one 64-bit word of their coefficient is inspected:
+	// (h * 2^64 + l) * 10^e with l = 5, e = -1 (not one half), l = 1 (not one), l = 0; powers of ten and other bases
+	{
+		two64 := new(big.Int).Lsh(big.NewInt(1), 64)
+		xs := []d128.Decimal{mk(false, big.NewInt(100), 0), mk(false, big.NewInt(1), -2), mk(false, big.NewInt(1), 4), mk(false, big.NewInt(10), 0),
+			mk(false, big.NewInt(1), 0), mk(false, big.NewInt(3), 0), mk(true, big.NewInt(2), 0), mk(false, big.NewInt(999), -3)}
+		ls := []int64{5, 1, 0, 2}
+		g.gridRun(len(xs)*len(ls)*2*2, 0.08, func(i int) {
+			x := xs[i%len(xs)]
+			j := i / len(xs)
+			l, e, h := ls[j%len(ls)], -((j / len(ls)) % 2), int64(1+2*(j/len(ls)/2))
+			yc := new(big.Int).Add(new(big.Int).Mul(big.NewInt(h), two64), big.NewInt(l))
+			g.pow(x, mk(false, yc, e), g.r.Intn(6), true)
+			g.pow(x, mk(true, yc, e), g.r.Intn(6), true)
+		})
+	}
 	// y = +-1 in every encoding of one (10^k * 10^-k), every mode, bases that are not powers of ten: Pow(x, 1) = x and
 	// Pow(x, -1) = the rounded reciprocal exactly
 	g.gridRun(35*2, 0.2, func(i int) {
